@@ -79,6 +79,7 @@ type worker struct {
 	progress    *os.File
 	hashFile    string
 	budgetHit   bool
+	beat        uint64
 }
 
 const maxViolPerSig = 3
@@ -138,6 +139,18 @@ func (c *Ctx) Count(key string, n uint64) { c.w.mu.Lock(); c.w.extra[key] += n; 
 
 // Outcome counts a distinct observed outcome class (vacuity guard).
 func (c *Ctx) Outcome(key string) { c.w.mu.Lock(); c.w.outcomes[key]++; c.w.mu.Unlock() }
+
+// Heartbeat tells the orchestrator's hang detector that a long case is still making progress.
+func (c *Ctx) Heartbeat() {
+	w := c.w
+	if w.progress == nil {
+		return
+	}
+	w.beat++
+	var b [8]byte
+	binary.LittleEndian.PutUint64(b[:], w.beat)
+	w.progress.WriteAt(b[:], 8)
+}
 
 // Incomplete marks the run as not exhaustive (budget/cap hit).
 func (c *Ctx) Incomplete() { c.w.mu.Lock(); c.w.budgetHit = true; c.w.mu.Unlock() }
